@@ -546,6 +546,8 @@ pub struct Segment {
     pub keep_logs: bool,
     /// per frame, every datagram with what was sent and what came back
     pub frame_log: Vec<Vec<Dg>>,
+    /// global time at which the port-time latch frame enters device 0 (else the running clock)
+    pub latch_time_override: Option<u64>,
 }
 
 #[derive(Clone, Debug)]
@@ -587,6 +589,7 @@ impl Segment {
             dgram_log: Vec::new(),
             keep_logs: false,
             frame_log: Vec::new(),
+            latch_time_override: None,
         };
         s.apply_chain_ports();
         s
@@ -715,6 +718,9 @@ impl Segment {
             // BWR
             8 => {
                 if ado as usize == R_DC_PORT0 {
+                    if let Some(t) = self.latch_time_override {
+                        self.time_ns = t;
+                    }
                     self.latch_times();
                 }
                 for i in 0..n {
@@ -938,6 +944,7 @@ impl Segment {
             dgram_log: Vec::new(),
             keep_logs: false,
             frame_log: Vec::new(),
+            latch_time_override: None,
         };
         for _ in 0..self.devices.len() {
             me.devices.push(Device::new(Vec::new()));
